@@ -66,16 +66,18 @@ extern int mpt_stream_flush(MPT_STRUCT(stream) *stream)
 			io[0].iov_len = len;
 			len = 0;
 		}
+		ssize_t put;
 		/* write queue buffer data to file */
-		if ((len = writev(file, io, len ? 2 : 1)) <= 0) {
-			if (!len) {
+		if ((put = writev(file, io, len ? 2 : 1)) <= 0) {
+			if (!put) {
 				mpt_stream_seterror(&stream->_info, MPT_ENUM(ErrorFull));
 				return 1;
 			} else {
 				mpt_stream_seterror(&stream->_info, MPT_ENUM(ErrorWrite));
 			}
-			return len;
+			return put;
 		}
+		len = put;
 	}
 	/* remove written data from queue */
 	mpt_queue_crop(&stream->_wd.data, 0, len);
